@@ -135,8 +135,11 @@ def run_case(case):
     prog = case["prog"]
     text = render_program(prog, case.get("style", "frac"), case.get("explicit_last", True))
     out = {"outcome": "ok", "text": text, "notes": [], "fp_iterations": case["fp_iterations"]}
-    saved = settings.type_fp_iterations
+    saved = (settings.type_fp_iterations, settings.transform_categoricals)
     settings.type_fp_iterations = case["fp_iterations"]
+    settings.transform_categoricals = bool(case.get("transform_categoricals"))
+    out["transform_categoricals"] = bool(case.get("transform_categoricals"))
+    out["symbolic"] = bool(case.get("symvals"))
     try:
         try:
             program = normalize_program(Parser().parse_string(text))
@@ -145,7 +148,7 @@ def run_case(case):
             out["error"] = f"{type(e).__name__}: {e}"[:300]
             return out
     finally:
-        settings.type_fp_iterations = saved
+        settings.type_fp_iterations, settings.transform_categoricals = saved
     declared = {t[0] for t in prog.get("types", [])}
     ftypes = {}
     for v, t in program.typedefs.items():
@@ -156,14 +159,16 @@ def run_case(case):
                 pass
     out["typed"] = {k: v for k, v in sorted(ftypes.items())}
     out["normalized"] = str(program)
-    kinds = {"old": 0, "alias": 0, "r": 0, "t": 0, "orig": 0}
+    kinds = {"old": 0, "alias": 0, "r": 0, "t": 0, "c": 0, "orig": 0}
     for k in ftypes:
         if k.startswith("_old"):
             kinds["old"] += 1
         elif k.startswith("_r"):
             kinds["r"] += 1
-        elif k.startswith("_t"):
+        elif k.startswith("_t") and k[2:].isdigit():
             kinds["t"] += 1
+        elif k.startswith("_c") and k[2:].isdigit():
+            kinds["c"] += 1
         elif k.startswith("_"):
             kinds["alias"] += 1
         else:
